@@ -467,6 +467,16 @@ class Histogram1D(ObjectWithBinning, HistogramBase):
             validate_bins=False,
             keep_missed=self.keep_missed,
         )
+        if self.keep_missed:
+            # The counters that receive weight are checked before anything is changed
+            # (one left negative by free arithmetics refuses, as in `fill`)
+            self._check_missed(
+                [
+                    counter + added
+                    for counter, added in ((self.underflow, underflow), (self.overflow, overflow))
+                    if added
+                ]
+            )
         self._add_contents(
             frequencies,
             errors2,
@@ -474,8 +484,10 @@ class Histogram1D(ObjectWithBinning, HistogramBase):
         )
         # TODO: check that adaptive does not produce under-/over-flows?
         if self.keep_missed:
-            self.underflow += underflow
-            self.overflow += overflow
+            if underflow:
+                self.underflow += underflow
+            if overflow:
+                self.overflow += overflow
         self._stats += stats
 
     def __eq__(self, other: Any) -> bool:
